@@ -27,14 +27,16 @@ import (
 )
 
 type params struct {
-	Stakes    []int64 `json:"stakes"`
-	NChains   int     `json:"n_chains"`
-	NUsers    int     `json:"n_users"`
-	NSubs     int     `json:"n_subs"`
-	MapUgrain bool    `json:"map_ugrain"`
-	Blocks    int     `json:"blocks"`
-	Focus     string  `json:"focus"` // batch | prune | mixed
-	TimeJumps bool    `json:"time_jumps"`
+	Stakes     []int64 `json:"stakes"`
+	NChains    int     `json:"n_chains"`
+	NUsers     int     `json:"n_users"`
+	NSubs      int     `json:"n_subs"`
+	MapUgrain  bool    `json:"map_ugrain"`
+	Blocks     int     `json:"blocks"`
+	Focus      string  `json:"focus"` // batch | prune | mixed
+	TimeJumps  bool    `json:"time_jumps"`
+	BlockSecs  int     `json:"block_secs"`  // block time is 1..BlockSecs seconds
+	LazyRemote bool    `json:"lazy_remote"` // the remote chain rarely executes batches (they time out and are re-built)
 }
 
 // stake vectors (ugrain). Every validator is below the 25 % jailing protection unless noted;
@@ -56,14 +58,16 @@ func cases(tier string, seed int64) []fw.Case {
 	for i := 0; i < n; i++ {
 		s := seed*1_000_003 + int64(i)*7919 + 13
 		p := params{
-			Stakes:    stakeSets[(int(seed)+i)%len(stakeSets)],
-			NChains:   1 + (i+int(seed))%2,
-			NUsers:    3,
-			NSubs:     1 + (i/2)%2,
-			MapUgrain: i%3 == 0,
-			Blocks:    blocks,
-			Focus:     []string{"mixed", "batch", "prune"}[i%3],
-			TimeJumps: i%4 == 1,
+			Stakes:     stakeSets[(int(seed)+i)%len(stakeSets)],
+			NChains:    1 + (i+int(seed))%2,
+			NUsers:     3,
+			NSubs:      1 + (i/2)%2,
+			MapUgrain:  i%3 == 0,
+			Blocks:     blocks,
+			Focus:      []string{"mixed", "batch", "prune"}[i%3],
+			TimeJumps:  i%4 == 1,
+			BlockSecs:  []int{3, 6, 3, 10, 2}[i%5],
+			LazyRemote: i%5 == 1 || i%5 == 3,
 		}
 		if p.Stakes == nil {
 			p.Stakes = stakeSets[0]
